@@ -31,6 +31,24 @@ impl Rng {
 }
 
 // ---------------------------------------------------------------- building blocks
+/// A number of at most `k` bits (1..=50): the edges of the top half of that bit length, or anything below it.
+pub fn magnitude(r: &mut Rng, k: u64) -> u64 {
+    // MAX_SAFE_INTEGER of the crate is 900719925474099, a 50-bit number
+    let k = k.clamp(1, 50);
+    let top = ((1u64 << k) - 1).min(MAX_SAFE_INTEGER);
+    let half = 1u64 << (k - 1);
+    match r.below(8) {
+        0 => 0,
+        1 => 1,
+        2 => half - 1,
+        3 => half,
+        4 => (half + 1).min(top),
+        5 => top,
+        6 => half + r.below(top - half + 1),
+        _ => r.below(top + 1),
+    }
+}
+
 pub fn component(r: &mut Rng) -> u64 {
     match r.below(12) {
         0..=3 => r.below(3),
@@ -38,7 +56,15 @@ pub fn component(r: &mut Rng) -> u64 {
         5 => 99 + r.below(3),
         6 => MAX_SAFE_INTEGER - r.below(2),
         7 => r.below(1000),
-        8 => r.below(MAX_SAFE_INTEGER),
+        8 => {
+            if r.chance(1, 2) {
+                r.below(MAX_SAFE_INTEGER)
+            } else {
+                // any bit length (a uniform draw is almost always 52-53 bits long)
+                let k = 1 + r.below(50);
+                magnitude(r, k)
+            }
+        }
         // powers of two where a narrowing cast would bite
         9 => *r.pick(&[255u64, 256, 32767, 32768, 65535, 65536, 2147483647, 2147483648, 4294967295, 4294967296, 4294967297,
                        99999999999999, 100000000000000, 281474976710656]),
@@ -216,7 +242,36 @@ fn confusable_ids(r: &mut Rng) -> (Vec<Identifier>, Vec<Identifier>) {
 fn vorder<W: Write>(r: &mut Rng, n: usize, out: &mut W) -> usize {
     let mut cnt = 0;
     while cnt < n {
-        match r.below(10) {
+        match r.below(13) {
+            10..=12 => {
+                // all numbers within one bit length, a higher field equal or one apart, lower fields anywhere in that
+                // bit length (comparison through a packed / narrowed / floating key goes wrong in one such window)
+                let k = 1 + r.below(50);
+                let mut a = Version::from((magnitude(r, k), magnitude(r, k), magnitude(r, k)));
+                let mut b = a.clone();
+                let bump = |r: &mut Rng, x: u64| match r.below(3) {
+                    0 => x,
+                    1 => x.saturating_sub(1),
+                    _ => (x + 1).min(MAX_SAFE_INTEGER),
+                };
+                match r.below(3) {
+                    0 => {
+                        b.major = bump(r, a.major);
+                        b.minor = magnitude(r, k);
+                        b.patch = magnitude(r, k);
+                    }
+                    1 => {
+                        b.minor = bump(r, a.minor);
+                        b.patch = magnitude(r, k);
+                    }
+                    _ => b.patch = bump(r, a.patch),
+                }
+                if r.chance(1, 4) {
+                    a.pre_release = vec![Identifier::Numeric(magnitude(r, k))];
+                    b.pre_release = vec![Identifier::Numeric(magnitude(r, k))];
+                }
+                writeln!(out, "{}", json!({"op":"vcmp","a":vjson(&a),"b":vjson(&b)})).unwrap();
+            }
             0..=5 => {
                 // a pair sharing most of its fields
                 let mut a = version(r);
